@@ -49,3 +49,88 @@ Inductive subseq {A} : list A -> list A -> Prop :=
 | subseq_nil : forall l, subseq [] l
 | subseq_keep : forall x a l, subseq a l -> subseq (x :: a) (x :: l)
 | subseq_skip : forall x a l, subseq a l -> subseq a (x :: l).
+
+(* ======================================================================================================================
+   FINDCONTENT across both nodes, and the content lookup built on it.
+     serving node   Model/Handlers.v handle_find_content (C08): held -> the bytes inline if they fit one packet, else a
+                    connection id and a goroutine that writes encodeUtpContent(requester, content) to the uTP stream
+                    (framing per the version the SERVER derives for the requester, C15 / C19); not held -> ENRs (C08 / C11)
+     transport      [deliver : bytes -> bytes] on the uTP bytes (identity = honest transport)
+     requester      findContent -> processContent (Model/Handlers.v process_content, C08): raw bytes; connection id -> read
+                    the stream, decodeUtpContent with the version the REQUESTER derives for the server; ENRs -> filterNodes
+     lookup         ContentLookup (Model/Lookup.v, C10): the FIRST content answer wins (CAS + cancel); it is NOT validated
+                    there.  Validation sits in the callers:
+                      history GetBlockHeader / GetBlockBody / GetReceipts: ValidateContent BEFORE decode / Put / return
+                      (Model/History.v getter, C02);
+                      JSON-RPC portal_*GetContent (RecursiveFindContent) / *TraceGetContent, beacon getContent: NO validation,
+                      the lookup's result is returned as it is ([api_get_content]). *)
+From Shisui Require Import Gen.K_wire Gen.K_handlers Model.Handlers Model.Lookup.
+
+Definition E_NO_STREAM : N := 70.    (* nothing was written / the read failed *)
+
+(* TALKRESP bytes of a CONTENT reply; [connid] = the 2-byte id the uTP socket handed out, [enrs_ssz] = Enrs.MarshalSSZ of the
+   records (C14; the records themselves are abstract, see Model/Handlers.v) *)
+Definition content_reply_bytes (r : fc_reply) (connid enrs_ssz : bytes) : bytes :=
+  match r with
+  | FC_Raw c => n2b K_msg_CONTENT :: n2b K_sel_Raw :: c
+  | FC_ConnId => n2b K_msg_CONTENT :: n2b K_sel_ConnId :: connid
+  | FC_Enrs _ => n2b K_msg_CONTENT :: n2b K_sel_Enrs :: enrs_ssz
+  end.
+(* what Enrs.UnmarshalSSZ + record decoding gives the requester back for that reply *)
+Definition reply_records (r : fc_reply) : res (list nrec) :=
+  match r with FC_Enrs enrs => Ok enrs | _ => Err Handlers.E_SSZ end.
+
+(* serving node: the reply and, for a connection-id reply, what the goroutine writes (nothing if the version lookup fails) *)
+Definition serve_find_content (nodelist : list nrec) (srt : list nrec -> list nrec) (requester : N) (st : stored)
+           (ver_server : res N) : res (fc_reply * option bytes) :=
+  bind (handle_find_content nodelist srt requester st) (fun r =>
+  match r, st with
+  | FC_ConnId, St_Found c =>
+      match ver_server with
+      | Ok v => Ok (r, Some (encode_utp_content v c))
+      | Err _ => Ok (r, None)
+      | Panic => Panic
+      end
+  | _, _ => Ok (r, None)
+  end).
+
+(* requester: p.findContent = TALKREQ + processContent; the flag says whether the bytes came over uTP *)
+Inductive fc_result : Type := FR_Content (c : bytes) (utp : bool) | FR_Nodes (nodes : list nrec).
+Definition request_find_content (ver_requester : res N) (resp : bytes) (dec_enrs : res (list nrec)) (sender : nrec)
+           (stream : res bytes) : res fc_result :=
+  bind (Handlers.process_content resp dec_enrs sender) (fun r =>
+  match r with
+  | PC_Raw c => Ok (FR_Content c false)
+  | PC_ConnId _ =>
+      bind stream (fun data =>                                      (* DialWithCid + ReadToEOF *)
+      match ver_requester with                                      (* decodeUtpContent(target, data) *)
+      | Ok v => bind (decode_utp_content v data) (fun c => Ok (FR_Content c true))
+      | Err e => Err e
+      | Panic => Panic
+      end)
+  | PC_Enrs nodes => Ok (FR_Nodes nodes)
+  end).
+
+Definition find_content_exchange (nodelist : list nrec) (srt : list nrec -> list nrec) (server requester : nrec) (st : stored)
+           (ver_server ver_requester : res N) (connid enrs_ssz : bytes) (deliver : bytes -> bytes) : res fc_result :=
+  bind (serve_find_content nodelist srt (rid requester) st ver_server) (fun '(r, written) =>
+  request_find_content ver_requester (content_reply_bytes r connid enrs_ssz) (reply_records r) server
+    (match written with Some w => Ok (deliver w) | None => Err E_NO_STREAM end)).
+
+(* what contentLookupWorker makes of a peer, whatever that peer sent (TALKRESP bytes, records, stream: all arbitrary) *)
+Definition peer_answer (ver_requester : res N) (resp : bytes) (dec_enrs : res (list nrec)) (sender : nrec) (stream : res bytes)
+  : canswer :=
+  match request_find_content ver_requester resp dec_enrs sender stream with
+  | Ok (FR_Content c _) => AContent c
+  | Ok (FR_Nodes nodes) => AEnrs (map (fun n => Some (rid n)) nodes)
+  | _ => AError
+  end.
+
+(* the network getters of the history network over a drained content lookup [s]: Model/History.v getter with the network
+   answer being ContentLookup's return value *)
+Definition lookup_of (s : cl) : bytes -> option bytes := fun _ => content_result s.
+
+(* JSON-RPC RecursiveFindContent (portal_historyGetContent / portal_stateGetContent / portal_beaconGetContent) and the beacon
+   network's getContent: the local store, else the lookup's result - returned as it is *)
+Definition api_get_content (local : option bytes) (s : cl) : option bytes :=
+  match local with Some d => Some d | None => content_result s end.
